@@ -59,6 +59,10 @@
 //     (getter, setter, ToPrimitive): no test pins a column; only the file, the
 //     line and "column inside the extent of the expression" are asserted.
 //
+// Class and prototype chain of interpreter-raised errors are those of the
+// original intrinsics (ES5 15.11.6/15.11.7), whatever a script did earlier to
+// the global bindings or to the mutable parts of the prototypes (hist.go).
+//
 // Code created by the Function constructor has no file in otto and the tests
 // pin nothing for it: such frames must be present with the right name, their
 // location is not asserted. At most `limit` frames are listed
